@@ -74,3 +74,20 @@ Example C02_nonvacuous :
   (forall rho, oracle_sound rho always_unknown) /\
   jumpi_decide R_UNKNOWN R_UNKNOWN 0 0 2 = mkDecision true true false true true true.
 Proof. split; [intros rho p c b H; discriminate | reflexivity]. Qed.
+
+(* ---------------------------------------------------------------- with calls and creations
+   The same for the model with CALL / CALLCODE / DELEGATECALL / STATICCALL / CREATE
+   (Model/SymCalls.v): the insufficient-funds branch, every leaf of every callee frame and
+   every continuation of the caller are covered; a side is dropped only on a truthful
+   `unsat`. *)
+From HV Require Import Model.SymCalls Proofs.SymCallsComplete.
+
+Theorem C02_complete_calls :
+  forall lim special oracle loop rho,
+    oracle_sound rho oracle ->
+    forall fuel fr w ctr sg,
+      sat rho (ss_path sg) ->
+      snd (sexec2 lim special oracle loop fuel fr w ctr sg) = true \/
+      exists l, In l (fst (sexec2 lim special oracle loop fuel fr w ctr sg)) /\ sat rho (l2_path l).
+Proof. exact sexec2_complete. Qed.
+Print Assumptions C02_complete_calls.
